@@ -51,6 +51,9 @@ func init() {
 			mt = []byte("error: " + err.Error())
 		}
 		e["mt"] = ints(mt)
+		e["alias"] = scribbleChanges(mt, func() []byte { r, _ := x.MarshalText(); return r }) ||
+			scribbleChanges(d128.Append(nil, x, 'g', -1), func() []byte { return d128.Append(nil, x, 'g', -1) }) ||
+			scribbleChanges(x.Append(nil, "v"), func() []byte { return x.Append(nil, "v") })
 		e["v"] = ints([]byte(fmt.Sprintf("%v", x)))
 		e["g"] = ints([]byte(d128.Format(x, 'g', -1)))
 		e["e1"] = ints(d128.Append(nil, x, 'e', -1))
